@@ -90,6 +90,67 @@ def decision_oracle(ctx, case, real):
             ctx.nontriv(("decision", k, len(s1), len(s2), str(d)))
 
 
+def criteria_case(ctx):
+    """one filter criterion (CASAVA flag, N count, expected errors), mates that disagree, every --pair-filter mode"""
+    rng = ctx.rng
+    crit = rng.choice(["casava", "max-n", "max-ee"])
+    r1, r2 = [], []
+    for i in range(rng.randint(4, 8)):
+        def one(flag):
+            ln = rng.randint(5, 25)
+            s = pipe.rs(rng, ln, rng.choice(["ACGT", "ACGTN", "ACNN"]))
+            q = "".join(chr(33 + rng.choice([2, 20, 40])) for _ in s)
+            return s, q
+        f1, f2 = rng.choice("YN"), rng.choice("YN")
+        s, q = one(f1)
+        r1.append((f"r{i} 1:{f1}:0:1", s, q))
+        s, q = one(f2)
+        r2.append((f"r{i} 2:{f2}:0:1", s, q))
+    argv = ["--no-index"]
+    thr = None
+    if crit == "casava":
+        argv.append("--discard-casava")
+    elif crit == "max-n":
+        thr = rng.choice([0, 1, 2, 3])
+        argv += ["--max-n", str(thr)]
+    else:
+        thr = rng.choice([0.5, 1.0, 2.0, 4.0])
+        argv += ["--max-ee", str(thr)]
+    mode = rng.choice([None, "any", "both", "first"])
+    if mode:
+        argv += ["--pair-filter", mode]
+    argv += ["-o", "{dir}/o1.fastq", "-p", "{dir}/o2.fastq"]
+    return dict(argv=argv, paired=True, reads1=r1, reads2=r2, with_qual=True, interleaved_in=False, criteria=dict(crit=crit, thr=thr, mode=mode or "any"))
+
+
+def criteria_oracle(ctx, case, real):
+    if "error" in real:
+        return
+    c = case["criteria"]
+
+    def pred(name, s, q):
+        if c["crit"] == "casava":
+            return name.split(" ", 1)[1][1:4] == ":Y:"
+        if c["crit"] == "max-n":
+            return s.lower().count("n") > c["thr"] if c["thr"] >= 1 else (len(s) > 0 and s.lower().count("n") / len(s) > c["thr"])
+        return sum(10 ** (-(ord(x) - 33) / 10) for x in q) > c["thr"]
+    main = [rid(r[0]) for r in real["files"].get("o1.fastq", [])]
+    for (n1, s1, q1), (n2, s2, q2) in zip(case["reads1"], case["reads2"]):
+        p1, p2 = pred(n1, s1, q1), pred(n2, s2, q2)
+        if c["crit"] == "max-ee":
+            e1 = sum(10 ** (-(ord(x) - 33) / 10) for x in q1)
+            e2 = sum(10 ** (-(ord(x) - 33) / 10) for x in q2)
+            if min(abs(e1 - c["thr"]), abs(e2 - c["thr"])) < 1e-9:
+                continue
+        f = {"any": p1 or p2, "both": p1 and p2, "first": p1}[c["mode"]]
+        k = rid(n1)
+        if (k in main) == f:
+            ctx.failures.append(Failure("C05/pair-decision-criterion", f"pair decision for {c['crit']} differs from the documented combination ({c['mode']}) of the "
+                                        "per-read criteria", case_input(case), dict(pair=k, in_main=k in main), dict(r1=p1, r2=p2, filtered=f)))
+        if p1 != p2:
+            ctx.nontriv(("crit", c["crit"], c["mode"], k, s1, s2))
+
+
 def untrimmed_case(ctx):
     """adapters on one side only + untrimmed filter: 'both' is forced"""
     rng = ctx.rng
@@ -157,6 +218,11 @@ def run(ctx):
         ctx.count("directed-decision")
         sync_oracle(ctx, case, res, real)
         decision_oracle(ctx, case, real)
+    cs = [criteria_case(ctx) for _ in range(ctx.scale(80, 1500))]
+    for case, res, real, model in pipe.run_cases(ctx, cs):
+        ctx.count("directed-criteria")
+        sync_oracle(ctx, case, res, real)
+        criteria_oracle(ctx, case, real)
     cs = [untrimmed_case(ctx) for _ in range(ctx.scale(50, 1000))]
     for case, res, real, model in pipe.run_cases(ctx, cs):
         ctx.count("directed-untrimmed")
